@@ -19,3 +19,26 @@ claim('C19', 'exploration',
       'Key / name equivalence of the fixed pools comes from Python unicodedata, which is final for those characters.',
       'runtime monitoring: model-based random histories under ASan/UBSan with allocation-ledger and global-state monitors',
       'DESIGN.md section 4, C19')
+
+claim('C04', 'exploration',
+      'Random API histories (40-120 calls, 1-3 CIFs, colliding name pools in case / NFC / NFD / reordered-mark variants, '
+      'invalid names, NULL and duplicate categories, empty and foreign-item packets, iterator edits, parsing into an '
+      'existing CIF, stale loop handles) executed in lock-step with an executable model of the documented data model; '
+      'result codes must lie in the model\'s acceptable set, every query result must equal the model\'s, and full dumps '
+      '(query API only) are compared at checkpoints, after destroy / prune / iterator / parse steps and for every CIF at '
+      'the end, which also shows cross-CIF interference.',
+      'Held on the seeded histories generated. Where the documentation is open the model accepts several codes '
+      '(DESIGN.md section 5); packets with unspecified items are compared leniently in cif_container_get_value.',
+      'runtime monitoring: lock-step reference-model checking of random API histories under ASan/UBSan',
+      'DESIGN.md section 4, C04')
+
+claim('C05', 'exploration',
+      'Systematic: every failing kind of the statement x offending element first/middle/last x list length 1-5 x '
+      '{no transaction, inside an open iterator then closed, then aborted} on fresh fixtures, each followed by probe '
+      'calls; random: every failing call of C04-style histories.  After each failing call the full dump must equal the '
+      'unchanged model, no transaction may be left open (or the enclosing one lost), and the probes must behave as if '
+      'the failed call had never been made.',
+      'Inside an open iterator any error code is accepted from the failing call; only unchangedness, transaction '
+      'state and the probes are judged there.',
+      'runtime monitoring: unchanged-on-failure and transaction-state monitors over systematic and random failing calls',
+      'DESIGN.md section 4, C05')
